@@ -450,6 +450,11 @@ lyplg_type_parse_dec64(uint8_t fraction_digits, const char *value, size_t value_
 
     if ((value[len] == '-') || (value[len] == '+')) {
         ++len;
+        if ((len == value_len) || !isdigit(value[len])) {
+            /* the sign must be followed by a digit */
+            return ly_err_new(err, LY_EVALID, LYVE_DATA, NULL, NULL, "Invalid %zu. character of decimal64 value \"%.*s\".",
+                    len + 1, (int)value_len, value);
+        }
     }
 
     while (len < value_len && isdigit(value[len])) {
